@@ -16,7 +16,7 @@ import (
 
 func init() {
 	register(&Rule{ID: "WR5", Min: 20, Run: ruleWR5,
-		Doc: "storage-error-propagation: the error result of every call that can reach a file mutation, a handle write/flush/sync or a lock operation is either returned directly, or tested with every path on its non-nil edge returning an error derived from it (wrapped or not); recognised exception: a sentinel produced inside the command's own lock callback and compared by text (the no-ready-tasks reply); frozen exceptions: deferred Close of the two write handles, deferred close/unlock in the lock primitive"})
+		Doc: "storage-error-propagation: the error result of every call that can reach a file mutation, a handle write/flush/sync or a lock operation is either returned directly, or tested with every path on its non-nil edge returning an error derived from it (wrapped or not); recognised exception: a sentinel produced inside the command's own lock callback and compared by text (the no-ready-tasks reply); frozen exceptions: deferred Close of the two write handles, deferred close/unlock in the lock primitive; a Close/Remove whose error is dropped is accepted as clean-up where every exit reachable from it already returns a non-nil error, or inside a deferred closure behind a test that the enclosing function's named error result is non-nil"})
 	register(&Rule{ID: "OU3", Min: 6, Run: ruleOU3,
 		Doc: "reply-matches-commit: the values a success reply reports (ids, uuid, epic, title, body, timestamps, agent, state, claimant, edges) are the same SSA values or constants as the fields of the events committed by that command, or are read off a replay of exactly the events being committed"})
 }
@@ -158,6 +158,9 @@ func (c *Ctx) cleanupOnFailingPath(fn *ssa.Function, cv *ssa.Call, name string) 
 	if blk == nil {
 		return false
 	}
+	if c.inDeferredFailureCleanup(fn, cv) {
+		return true
+	}
 	n := 0
 	for b := range reach(blk, nil, nil) {
 		if len(b.Instrs) == 0 {
@@ -176,6 +179,92 @@ func (c *Ctx) cleanupOnFailingPath(fn *ssa.Function, cv *ssa.Call, name string) 
 		}
 	}
 	return n > 0
+}
+
+// inDeferredFailureCleanup: the call sits in a closure the enclosing function only defers, behind a test that the
+// enclosing function's named error result is non-nil (defer func() { if err != nil { os.Remove(tmp) } }()): the function
+// is already reporting a failure when the clean-up runs.
+func (c *Ctx) inDeferredFailureCleanup(fn *ssa.Function, cv *ssa.Call) bool {
+	parent := fn.Parent()
+	if parent == nil || len(fn.FreeVars) == 0 {
+		return false
+	}
+	var mc *ssa.MakeClosure
+	for _, b := range parent.Blocks {
+		for _, in := range b.Instrs {
+			if m, ok := in.(*ssa.MakeClosure); ok && m.Fn == ssa.Value(fn) {
+				if mc != nil {
+					return false
+				}
+				mc = m
+			}
+		}
+	}
+	if mc == nil || mc.Referrers() == nil {
+		return false
+	}
+	for _, r := range *mc.Referrers() {
+		switch x := r.(type) {
+		case *ssa.Defer:
+			if x.Call.Value != ssa.Value(mc) {
+				return false
+			}
+		case *ssa.DebugRef:
+		default:
+			return false
+		}
+	}
+	// the captured cell that is the parent's error result
+	res := parent.Signature.Results()
+	if res.Len() == 0 || res.At(res.Len()-1).Type().String() != "error" {
+		return false
+	}
+	var errVar *ssa.FreeVar
+	for i, fv := range fn.FreeVars {
+		al, ok := mc.Bindings[i].(*ssa.Alloc)
+		if !ok || al.Comment != res.At(res.Len()-1).Name() || al.Comment == "" {
+			continue
+		}
+		returned := false
+		for _, r := range returnsOf(parent) {
+			if len(r.Results) == res.Len() {
+				if ld, ok := strip(r.Results[res.Len()-1]).(*ssa.UnOp); ok && ld.Op == token.MUL && ld.X == ssa.Value(al) {
+					returned = true
+				}
+			}
+		}
+		if returned {
+			errVar = fv
+		}
+	}
+	if errVar == nil {
+		return false
+	}
+	for _, st := range storesTo(fn, errVar) {
+		_ = st
+		return false // the closure itself rewrites the result: not a pure clean-up
+	}
+	failing := edgesWhere(fn, func(a Atom, holds bool) bool {
+		if a.Kind != "nil" || holds || len(a.Env) != 0 {
+			return false
+		}
+		ld, ok := strip(a.X).(*ssa.UnOp)
+		return ok && ld.Op == token.MUL && ld.X == ssa.Value(errVar)
+	})
+	return len(failing) > 0 && mustPassEdges(fn, cv.Block(), failing)
+}
+
+// storesTo: the stores in f whose address is v.
+func storesTo(f *ssa.Function, v ssa.Value) []*ssa.Store {
+	var out []*ssa.Store
+	for _, b := range f.Blocks {
+		for _, in := range b.Instrs {
+			if st, ok := in.(*ssa.Store); ok && st.Addr == v {
+				out = append(out, st)
+			}
+		}
+	}
+	return out
 }
 
 func reachesSelf(b *ssa.BasicBlock) bool {
